@@ -507,7 +507,7 @@ int write_elf(
 
     symbol_count = symbols->export_count();
 
-    int symbol_address[symbol_count];
+    int symbol_address[symbol_count + 1];
 
     // .strtab section
     file.align(4);
